@@ -199,8 +199,12 @@ def canon_own(tree):
 
 
 def canon_py(src: str):
+    import warnings
     out = []
-    for s in ast.parse(src).body:
+    with warnings.catch_warnings():
+        warnings.simplefilter('ignore')
+        body = ast.parse(src).body
+    for s in body:
         out.append(_neutral(canon_ast.py_stmt(_walrus(s), 'module')))
     return tuple(out)
 
